@@ -118,6 +118,15 @@ def datafile_case(ctx, case):
         f = os.path.join(d, "sub", f"{prob}{n}.npz")
         generate_dataset(filename=f, problem=prob, dataset_size=N, graph_sizes=[n], seed=seed, overwrite=True, **(dict(data_distribution=case.get("dist", "dist")) if prob == "op" else {}))
         raw = dict(np.load(f))
+        if prob == "vrp" and case.get("merged"):
+            # a merged dataset file (documented format, capacity stored per instance): the second half comes from a source
+            # with another vehicle capacity; integer demands 1..9 stay below both
+            cap = raw["capacity"].copy()
+            cap[N // 2:] = case["merged"]
+            raw["capacity"] = cap
+            np.savez(f, **raw)
+            raw = dict(np.load(f))
+            ctx.count("c19_merged_capacity_files")
         envs = {"tsp": [E.TSPEnv], "vrp": [E.CVRPEnv, E.SDVRPEnv], "pdp": [E.PDPEnv], "op": [E.OPEnv], "pctsp": [E.PCTSPEnv, E.SPCTSPEnv], "atsp": [E.ATSPEnv]}[prob]
         for cls in envs:
             env = cls(generator_params=dict(num_loc=n), check_solution=False)
